@@ -166,6 +166,24 @@ impl ChunkStateMmapper {
     }
 }
 
+/// Verification hooks: read and seed the recorded state of a chunk (0 = Unmapped,
+/// 1 = Quarantined, 2 = Mapped).
+#[cfg(mmtk_verif)]
+impl ChunkStateMmapper {
+    pub fn verif_state(&self, chunk: Address) -> u8 {
+        self.storage.get_state(chunk) as u8
+    }
+    pub fn verif_seed_state(&self, chunk: Address, state: u8) {
+        let state = match state {
+            0 => MapState::Unmapped,
+            1 => MapState::Quarantined,
+            _ => MapState::Mapped,
+        };
+        self.storage
+            .bulk_set_state(ChunkRange::new_aligned(chunk, BYTES_IN_CHUNK), state);
+    }
+}
+
 impl Mmapper for ChunkStateMmapper {
     fn log_granularity(&self) -> u8 {
         LOG_BYTES_IN_CHUNK as u8
